@@ -1,6 +1,6 @@
 (** C16: helpers to relate the data the translator reads from the source to the
     model's constants, and checkers for the shipped lists. *)
-From Spg.Base Require Import Prelude Utf8 Bytes.
+From Spg.Base Require Import Prelude Utf8 Bytes Multiset.
 From Spg.Model Require Import Tables Rand GenM CharSets CharGen Token WordList WordGen.
 From Spg.Proofs Require Import RandProofs SetProofs CountProofs GenProofs CharGenProofs WordGenProofs ProdProofs WordProdProofs
   WordDecodeProofs WordEntropyProofs WordFinalProofs.
@@ -121,19 +121,7 @@ Qed.
 (** values a preset recipe can return, as a list *)
 Definition preset_values (r : char_recipe) : list bytes := map (@List.concat N) (strings_over (alphabet r) (len_nat r)).
 
-(** boolean list equality with its specification (the sumbool deciders do not compute well) *)
-Fixpoint list_eqb {A} (eqb : A -> A -> bool) (l1 l2 : list A) : bool :=
-  match l1, l2 with
-  | [], [] => true
-  | a :: r1, c :: r2 => eqb a c && list_eqb eqb r1 r2
-  | _, _ => false
-  end.
-Lemma list_eqb_eq {A} (eqb : A -> A -> bool) (Heq : forall x y, eqb x y = true -> x = y) l1 :
-  forall l2, list_eqb eqb l1 l2 = true -> l1 = l2.
-Proof.
-  induction l1 as [|a r1 IH]; intros [|c r2] H; try discriminate; [reflexivity|].
-  cbn [list_eqb] in H. apply andb_prop in H. destruct H as [H1 H2]. f_equal; [apply Heq; exact H1|apply IH; exact H2].
-Qed.
+(** boolean list equality with its specification: Base/Multiset.v ([list_eqb], [list_eqb_eq]) *)
 Lemma str_list_eqb_eq l1 l2 : list_eqb String.eqb l1 l2 = true -> l1 = l2.
 Proof. apply list_eqb_eq. intros x y H. apply String.eqb_eq. exact H. Qed.
 Lemma bytes_list_eqb_eq l1 l2 : list_eqb beqb l1 l2 = true -> l1 = l2.
